@@ -40,6 +40,15 @@ add("C12", "E4", "model_checking", "exhaustive enumeration of all type-length fi
 add("C13", "E4", "model_checking", E4T + ", checking the iterator protocol",
     "on every input of the C09 families: at most |x|+1 items, and after the first Err or None four further next() calls return None (hard call limit so a repeating error is reported, not looped on)", "§6 C13")
 
+add("C10", "E3", "model_checking", "exhaustive enumeration of file sequences x noise placements x sources x buffers x per-call target-type/read-next choices on the real SmlReader against the abstract files put in",
+    "file sequences of <=2 (quick) / <=3 (thorough) over 5 generated SML files + 1 non-SML payload, all 8^(k+1) noise placements (noise ending in 0x1b, partial start/end sequences), 5 sources x 4 buffer kinds, uniform and alternating choices of DecodedBytes/File/Parser x read/next/read_nb/next_nb for every layout and the full 6^(k+2) choice tree for three layouts per sequence; oracle: the abstract files in order, noise only as counts, None exactly at the end, and equality with decode+parse composed by hand", "§6 C10")
+add("C11", "E3", "fault_enumeration", "stateless deviation-bounded exploration of byte-source answers: every placement of <=k faults at the read() choice points of a controlled io::Read",
+    "choice point = every io::Read::read call of the real reader; deviations WouldBlock / Interrupted / Other / BrokenPipe / premature persistent EOF; every schedule with <=2 (quick) / <=3 (thorough) deviations on 9 streams placing a fault in every decoder phase, drivers next/read/next_nb/read_nb, run to completion; oracle: reference reader (would-block surfaces once with 0 and changes nothing, interrupted invisible, other error carries the exact pending count and continues like a fresh reader on the rest, EOF -> None iff nothing pending, persistently)", "§6 C11")
+add("C15", "E3", "model_checking", "exhaustive enumeration of symbol streams through all seven front-ends in lock step",
+    "every symbol string (6 byte classes, adaptive checksum bytes, ESC SOM TAIL0-3 TAILX) of depth <=4 (quick) / <=5 (thorough) from three roots plus framed payload families with noise, through Decoder+finalize, decode, decode_streaming and SmlReader over slice / iterator (by value, by reference) / io::Cursor / one-byte io::Read with Vec, ArrayBuf<64>, ArrayBuf<2> and the default buffer; all must equal the push decoder's list, leftovers as DiscardedBytes(n) vs IoErr(Eof,n); Vec and sufficient ArrayBuf must agree", "§6 C15")
+add("C18", "E5", "model_checking", "exhaustive enumeration of operation sequences on the real ArrayBuf<N> / Vec against an ideal bounded vector",
+    "every sequence of push / extend_from_slice(0..N+1) / truncate(0..N+1) / clear up to depth 4-6 (quick) / 6-8 (thorough) for N in {0,1,2,3,4,6} and for Vec<u8>, fresh byte values so stale storage is visible; after every step result and contents equal the ideal vector; at the end of every sequence from_iter, ==, Debug in three formats and inequality with neighbouring contents", "§6 C18")
+
 PENDING = {
 }
 ALL = ["C%02d" % i for i in range(1, 19)]
